@@ -15,6 +15,8 @@ type MsgMeta struct {
 	Comp   ref.CompInfo
 	Slot   string
 	Index  int // index within the slot (ordered slots)
+	// Compressed: the record had a compressed timestamp header.
+	Compressed bool
 }
 
 // Expectation is the model's verdict for a plan.
@@ -70,7 +72,7 @@ func Expect(p *ref.Plan, o ExpectOpts) (*Expectation, error) {
 		if m == nil {
 			continue
 		}
-		meta := MsgMeta{Seq: i, Global: m.Global}
+		meta := MsgMeta{Seq: i, Global: m.Global, Compressed: p.Records[i].Compressed}
 		if m.Global == 0 {
 			c.FileId = m.F
 			if !inited {
